@@ -328,26 +328,46 @@ async fn client_cell(set: Arc<CertSet>, stream_kind: String, answer: String) -> 
     let tn = TopicName::try_from(topic).unwrap();
     let sk = stream_kind.clone();
     let c2 = client.clone();
+    let listen_too = answer.starts_with("Ok+");
     let task = tokio::spawn(async move {
         match sk.as_str() {
             "publisher" => c2.publisher(topic).with_encoder(StringCodec).open().await.map(|_| ()),
             "subscriber" => c2.subscriber(topic).with_decoder(StringCodec).open().await.map(|_| ()),
             "requestor" => c2.requestor(topic).with_request_encoder(StringCodec).with_reply_decoder(StringCodec).open().await.map(|_| ()),
-            _ => c2
-                .replier(topic)
-                .with_request_decoder(StringCodec)
-                .with_reply_encoder(StringCodec)
-                .with_handler(|r: String| async move { Ok::<String, std::convert::Infallible>(r) })
-                .open()
-                .await
-                .map(|_| ()),
+            _ => {
+                let r = c2
+                    .replier(topic)
+                    .with_request_decoder(StringCodec)
+                    .with_reply_encoder(StringCodec)
+                    .with_handler(|r: String| async move { Ok::<String, std::convert::Infallible>(r) })
+                    .open()
+                    .await;
+                match r {
+                    // the refusal arrives after the Ok: it is listen() that has to report it
+                    Ok(mut rep) if listen_too => rep.listen().await,
+                    other => other.map(|_| ()),
+                }
+            }
         }
     });
     let mut inc = fake.next_incoming(net::LONG).await.ok_or_else(|| setup("registration", "never reached the fake server".into()))?;
     if answer == "close" {
         drop(inc);
     } else {
-        let f = frame_of(&answer, &tn, 3);
+        // "ErrorBinary<code>": an error frame whose code the client does not know and whose message
+        // is not UTF-8; "Ok+ErrorBinary<code>": the same after the registration was acknowledged
+        let binary = |a: &str| -> Option<Frame> {
+            let code: u32 = match a.rsplit("ErrorBinary").next()? {
+                "Max" => u32::MAX,
+                n => n.parse().ok()?,
+            };
+            Some(Frame::Error(ErrorPayload { code, message: Bytes::from_static(&[0xff, 0xfe, 0x80]) }))
+        };
+        if listen_too {
+            let _ = inc.stream.send(Frame::Ok).await;
+            tokio::time::sleep(Duration::from_millis(50)).await;
+        }
+        let f = if answer.contains("ErrorBinary") { binary(&answer).unwrap() } else { frame_of(&answer, &tn, 3) };
         let _ = inc.stream.send(f).await;
         // keep the stream open: the verdict must come from the answer, not from a close
         tokio::spawn(async move {
@@ -355,7 +375,10 @@ async fn client_cell(set: Arc<CertSet>, stream_kind: String, answer: String) -> 
             drop(inc);
         });
     }
-    let r = tokio::time::timeout(Duration::from_secs(15), task).await.map_err(|_| fail("open-hang", &class, format!("open() of a {stream_kind} did not return within 15 s after the server answered with {answer}")))?.map_err(|e| setup("task", e.to_string()))?;
+    let r = tokio::time::timeout(Duration::from_secs(15), task)
+        .await
+        .map_err(|_| fail("open-hang", &class, format!("open() of a {stream_kind} did not return within 15 s after the server answered with {answer}")))?
+        .map_err(|e| if e.is_panic() { fail("client-panicked", &class, format!("the client library panicked on the server's answer {answer} to the registration of a {stream_kind}: {e}")) } else { setup("task", e.to_string()) })?;
     fake.shutdown();
     match (answer.as_str(), r) {
         ("Ok", Ok(())) => Ok("open-ok".into()),
@@ -480,9 +503,15 @@ fn cells(tier: &str) -> Vec<Value> {
         id += 1;
     }
     for sk in ["publisher", "subscriber", "requestor", "replier"] {
-        for ans in KINDS.iter().copied().chain(["close"]) {
+        for ans in KINDS.iter().copied().chain(["close", "ErrorBinary7", "ErrorBinary8", "ErrorBinary64", "ErrorBinaryMax"]) {
             v.push(json!({"cell": id, "family": "client-open", "stream": sk, "server_answer": ans}));
             id += 1;
+        }
+        if sk == "replier" {
+            for ans in ["Ok+ErrorBinary8", "Ok+ErrorBinaryMax"] {
+                v.push(json!({"cell": id, "family": "client-open", "stream": sk, "server_answer": ans}));
+                id += 1;
+            }
         }
     }
     v
@@ -511,7 +540,7 @@ pub async fn run(tier: &str, replaying: bool) -> ! {
     finish(
         rep,
         outs,
-        "first-frame: each of the 8 frame kinds as the first frame of a stream on a topic that is fresh / already pub/sub / already request/reply (24 cells, plus the payload-carrying kinds with a 1 MiB - 64 B body of 0xff bytes): the stream must be served in its role (exercised with helper peers) or refused with an error frame carrying a code - never Ok followed by abandonment, never a silent close; follow-up: a registered publisher / requestor / replier sends each of the 8 kinds once (small; Message also at the size that fits 1 MiB only before the routing tag; thorough: zero/at-limit for payload-carrying kinds); client-open: the real client's open() for each of the 4 stream kinds against a fake server answering the registration with each of the 8 kinds or closing. After every server-side cell a well-behaved real client must complete a round trip on the same topic. racing-first-registrations (auxiliary, schedules SAMPLED by repetition, not enumerated): 4 raw peers on separate connections open the first streams of a fresh topic simultaneously (same pattern, or two of each pattern), 8 cells x 40 (150) trials; everyone answered Ok must be served",
+        "first-frame: each of the 8 frame kinds as the first frame of a stream on a topic that is fresh / already pub/sub / already request/reply (24 cells, plus the payload-carrying kinds with a 1 MiB - 64 B body of 0xff bytes): the stream must be served in its role (exercised with helper peers) or refused with an error frame carrying a code - never Ok followed by abandonment, never a silent close; follow-up: a registered publisher / requestor / replier sends each of the 8 kinds once (small; Message also at the size that fits 1 MiB only before the routing tag; thorough: zero/at-limit for payload-carrying kinds); client-open: the real client's open() for each of the 4 stream kinds against a fake server answering the registration with each of the 8 kinds, with error frames whose code is unknown and whose message is not UTF-8 (also after an Ok, for a listening replier), or closing. After every server-side cell a well-behaved real client must complete a round trip on the same topic. racing-first-registrations (auxiliary, schedules SAMPLED by repetition, not enumerated): 4 raw peers on separate connections open the first streams of a fresh topic simultaneously (same pattern, or two of each pattern), 8 cells x 40 (150) trials; everyone answered Ok must be served",
         "hostile inputs enumerated exhaustively over frame kinds x topic states x roles",
         json!({}),
         replaying,
